@@ -51,10 +51,14 @@ def run(chk):
                        "the normal and of the low-priority output are exactly those of the fuel-free reading `go` of the token tree — every rule once, non-host "
                        "rules in the normal output in source order, each `:host{}` in the low output inside the chain of the WRITTEN preludes of its enclosing "
                        "rule-bearing at-rules, `:host` combinations in neither; at-rule dispatch (rule list vs declaration block vs `;`) included; with conversion "
-                       "off the low output is empty (host_off_low_empty); the model's fuel is never exhausted. PARTIAL: with an import sign the theorem is not "
+                       "off the low output is empty (host_off_low_empty); the model's fuel is never exhausted. outputs_balanced (GE/Thm/C17Bal.lean): both outputs are balanced in { / } for every "
+                       "token tree — every :host rule re-opens the chain of its enclosing at-rules and closes exactly as many blocks, at any nesting. PARTIAL: with an import sign the theorem is not "
                        "stated (import wrappers: import_balanced in C18); payloads (strings, numbers) of the tokens are covered by C09 / C10's theorems per rule"]
     csscheck.run_property(chk, "C17", "GE.Thm.C17", THEOREMS, 700, 12000, focus=focus, extra_cases=extra_cases,
                           nontrivial=lambda o, css, res: ":host" in css)
+    failed, log = chk.prove("GE.Thm.C17Bal", ["GE.Css.outputs_balanced", "GE.Css.go_balanced", "GE.Css.BalL.hostLow"])
+    for t in failed:
+        chk.violation("proof", f"obligation {t} no longer checks", theorem=t, log=log[-3000:])
     failed, log = chk.prove("GE.Thm.C17Sheet", THM_SHEET)
     for t in failed:
         chk.violation("proof", f"obligation {t} no longer checks", theorem=t, log=log[-3000:])
